@@ -84,6 +84,13 @@ C4TextOfWhy(v) ==
     [] v.t = "float" -> IF C4FloatTextOK(v) THEN "" ELSE "float-text"
     [] OTHER -> ""
 
+\* Text produced by an earlier escaping step (a content {let} or {param})
+\* spells the double quote as &#34; in Go and as &quot; in JS.  The two values
+\* are the same text node but different strings, so any use that looks at the
+\* characters (escaping it again, truncating, comparing) is outside the subset;
+\* only writing it out verbatim is inside.
+HasQuoteRef(s) == SD!HasSub(s, "&#34;") \/ SD!HasSub(s, "&quot;")
+
 (***************************************************************************)
 (* Expressions.                                                            *)
 (***************************************************************************)
@@ -138,6 +145,11 @@ ES(e, env, bc) ==
                    IF IsBad(x) \/ IsBad(n) THEN "bad"
                    ELSE IF IsNum(x) /\ n.t = "int" /\ n.v = 0 /\ Num(x) < 0 /\ Sh(x) = 1
                         THEN "round-negative-half" ELSE ""
+              ELSE IF e.name = "strContains" /\ Len(e.args) = 2 THEN
+                   LET x == Eval(e.args[1], env) y == Eval(e.args[2], env) IN
+                   IF IsBad(x) \/ IsBad(y) THEN "bad"
+                   ELSE IF x.t = "str" /\ y.t = "str" /\ (HasQuoteRef(x.v) \/ HasQuoteRef(y.v))
+                        THEN "quote-reference-reused" ELSE ""
               ELSE ""
     [] e.k = "neg" -> ES(e.a, env, FALSE)
     [] e.k = "not" -> ES(e.a, env, TRUE)
@@ -168,7 +180,9 @@ ES(e, env, bc) ==
          IF IsBad(va) \/ IsBad(vb) THEN "bad"
          ELSE C4First(ES(e.a, env, FALSE), C4First(ES(e.b, env, FALSE),
               IF va.t \in {"list", "map"} \/ vb.t \in {"list", "map"} THEN "collection-equality"
-              ELSE IF C4SameKind(va, vb) THEN "" ELSE "mixed-type-equality"))
+              ELSE IF ~C4SameKind(va, vb) THEN "mixed-type-equality"
+              ELSE IF va.t = "str" /\ (HasQuoteRef(va.v) \/ HasQuoteRef(vb.v)) THEN "quote-reference-reused"
+              ELSE ""))
     [] e.k = "add" ->
          LET va == Eval(e.a, env) vb == Eval(e.b, env) IN
          IF IsBad(va) \/ IsBad(vb) THEN "bad"
@@ -197,11 +211,14 @@ C4DirsWhy(dirs, env, i) ==
   ELSE C4First(IF dirs[i].name \in CommonDirs THEN "" ELSE "directive-" \o dirs[i].name,
        C4First(ESSeq(dirs[i].args, env, 1), C4DirsWhy(dirs, env, i + 1)))
 
-\* a print command [e, dirs] in env
-PrintWhy(c, env) ==
-  LET v == Eval(c.e, env) IN
+\* a print command [e, dirs] in env; escOn = effective autoescape mode
+PrintWhy(c, env, escOn) ==
+  LET v == Eval(c.e, env)
+      verbatim == /\ \A i \in 1..Len(c.dirs) : c.dirs[i].name \in {"noAutoescape", "id"}
+                  /\ (~escOn \/ Len(c.dirs) > 0) IN
   IF IsBad(v) THEN "bad"
-  ELSE C4First(ES(c.e, env, FALSE), C4First(C4TextOfWhy(v), C4DirsWhy(c.dirs, env, 1)))
+  ELSE C4First(ES(c.e, env, FALSE), C4First(C4TextOfWhy(v), C4First(C4DirsWhy(c.dirs, env, 1),
+       IF v.t = "str" /\ ~verbatim /\ HasQuoteRef(v.v) THEN "quote-reference-reused" ELSE "")))
 
 \* an expression whose value is turned into text (css prefix)
 TextUseWhy(e, env) ==
